@@ -42,6 +42,7 @@ type Expr struct {
 	Uni   int     `json:"u"`             // Sub: union index or -1
 	Neg   bool    `json:"neg,omitempty"` // Look: negative lookahead
 	Style int     `json:"st,omitempty"`  // spelling choice (quotes, [ ] / { }, ! vs ~, bare modifier)
+	ung   bool    // generator bookkeeping: a sequence that starts with an unguarded union reference
 }
 
 func Lit(s string) *Expr     { return &Expr{Kind: KLit, S: s, Prod: -1, Uni: -1} }
